@@ -885,6 +885,8 @@ class Interp:
         self.path: list = []
         self.break_as_flag = False
         self.cond_effects: list = []
+        self._alias_stack: list = []
+        self.inline_properties = False   # opt-in: evaluate `self.<property>` through the property's body
         NT_CLASSES.clear()
         for q, c in prog.classes.items():
             if any(b.endswith("NamedTuple") for b in c.bases):
@@ -1546,6 +1548,19 @@ class Interp:
                 val = None
             if isinstance(val, (tuple, list)) and all(isinstance(x, (str, int, float, bool, type(None))) for x in val):
                 return ("tuple" if isinstance(val, tuple) else "list", tuple(C(x) for x in val))
+            # a module-level alias of a callable:  _f = partial(g, k=v)  /  _f = mod.g  /  _f = g
+            node = m.assigns[name]
+            key_ = (m.name, name)
+            if isinstance(node, (ast.Name, ast.Attribute)) or (
+                    isinstance(node, ast.Call) and ast.unparse(node.func) in ("partial", "functools.partial")):
+                if key_ not in self._alias_stack:
+                    self._alias_stack.append(key_)
+                    try:
+                        v = self.eval(node, Env(), (m, None, None))
+                    finally:
+                        self._alias_stack.pop()
+                    if not (isinstance(v, tuple) and v[0] == "unknown"):
+                        return v
         if name in m.functions or name in m.classes or name in m.assigns or name in m.aliases:
             return ("ext", self.prog.resolve(m, name))
         return ("ext", f"builtins.{name}")
@@ -1727,6 +1742,17 @@ class Interp:
             r = self.prog.find_method(ctx[1], name)
             if r and name not in r[0].properties:
                 return BoundMethod(r[0], r[1], ctx[1], ctx[2], name)
+            if r and self.inline_properties and name in r[0].properties:
+                qn = f"{ctx[1].qualname}.{name}"
+                if self.stack.count(qn) == 0 and self.inline_depth < MAX_INLINE:
+                    self.stack.append(qn)
+                    try:
+                        return self.as_term(self.apply_def(r[1], Env(), (r[0].module, ctx[1], ctx[2]), [obj], {}))
+                    finally:
+                        self.stack.pop()
+        if self.inline_properties and name == "ndim" and obj[0] in ("attr", "sym", "bv"):
+            # x.ndim is len(x.shape) for arrays and for every distribution / bijection of the library
+            return ("call", ("ext", "builtins.len"), (("attr", obj, "shape"),), ())
         if obj[0] == "call" and obj[1] == ("ext", "equinox.nn.MLP"):
             kw = dict(obj[3])
             d = kw.get("depth")
